@@ -291,7 +291,7 @@ def case_programs(ctx, cfg):
         queue.append((m1, (first,)))
     while queue:
         model, prog = queue.popleft()
-        if len(prog) >= depth:
+        if len(prog) >= depth or ctx.expired():
             continue
         for a in acts:
             m2 = step(model, prog, a)
